@@ -24,17 +24,16 @@ TResolve == /\ More /\ Ev.e = "resolve" /\ ResolveOk(Ev.obs) /\ result' = Ev.obs
 TNext == (TAdd \/ TSupp \/ TClear \/ TResolve) /\ l' = l + 1 /\ UNCHANGED tid
 TSpec == TInit /\ [][TNext]_tvars
 
-\* which clause blocks the next event (0 = none / not a resolve)
+\* bitmask of the contract clauses violated by the next event's observation (0 = none / not a resolve)
 Clause == IF More /\ Ev.e = "resolve" THEN
-             (IF Ev.obs.shown < 0 THEN 5
-              ELSE IF ~ShownIsBestP(fbs, supp, Ev.obs) THEN 1
-              ELSE IF ~DefaultIffNoneP(fbs, supp, Ev.obs) THEN 2
-              ELSE IF ~CorrectIffP(fbs, supp, Ev.obs) THEN 3
-              ELSE IF ~ScoreIsP(fbs, supp, Ev.obs) THEN 4 ELSE 0)
+             (IF Ev.obs.shown < 0 THEN 16 ELSE
+                (IF ~ShownIsBestP(fbs, supp, Ev.obs) THEN 1 ELSE 0)
+              + (IF ~DefaultIffNoneP(fbs, supp, Ev.obs) THEN 2 ELSE 0)
+              + (IF ~CorrectIffP(fbs, supp, Ev.obs) THEN 4 ELSE 0)
+              + (IF ~ScoreIsP(fbs, supp, Ev.obs) THEN 8 ELSE 0))
           ELSE 0
 Progress == /\ (IF l > TLCGet(tid) THEN TLCSet(tid, l) /\ TLCSet(NT + tid, Clause) ELSE TRUE)
-ClauseName(c) == CASE c = 1 -> "ShownIsBest" [] c = 2 -> "DefaultIffNone" [] c = 3 -> "CorrectIff"
-                   [] c = 4 -> "ScoreIs" [] c = 5 -> "ResolveTotal" [] OTHER -> "unmatched-event"
+ClauseName(c) == ToString(c)
 Post == LET rej == {i \in 1..NT : TLCGet(i) < Len(Traces[i]) + 1} IN
         /\ PrintT(<<"ACCEPTED", NT - Cardinality(rej)>>)
         /\ \A i \in rej : PrintT(<<"REJECTED", i, TLCGet(i), ClauseName(TLCGet(NT + i))>>)
